@@ -33,6 +33,20 @@
 (*                      statement outside a body being recorded            *)
 (*   VariableIsLastSetOrPopped  VX holds what the last executed SET / POPV *)
 (*                      gave it (ghost: LIFO list of pushed values)        *)
+(*   ExpectListIsAnnouncedMinusConsumed  (growth round 6; family "exp":    *)
+(*                      EXPECT 1200 | 1200,1450 | 1200,1200, ENDEXPECT,    *)
+(*                      END, IFDEF / IFNDEF CX) the EXPECT list holds the  *)
+(*                      numbers the open EXPECT named less those consumed  *)
+(*                      since (ghost bags, by counting); nothing pending   *)
+(*                      outside a block                                    *)
+(*   HiddenIsNeverCounted  consumed messages = Diag's ghost `taken`        *)
+(*   EndIsFinal         nothing is executed behind END                     *)
+(*   (in ForwardIsAllowed's step: ENDEXPECT raises exactly one error per   *)
+(*   announced number that was not met)                                    *)
+(* The forward model raises every message through Diag!WrXErrorPos (list   *)
+(* d.exp, Has / RemoveFirst) - StmtSucc judges with DiagPos!Report: the    *)
+(* two stand-alone models of the EXPECT list are checked against each      *)
+(* other and both against the real assembler.                              *)
 (* AsCore_Gen adds the export for replay (program + predicted outcome).    *)
 (* Constants: MaxLen source lines, MaxSteps executed statements, Family /  *)
 (* BodyLen: shape of the programs (see NextSource).                        *)
@@ -68,14 +82,13 @@ Alpha ==
 SymAlpha ==
   {St("LBX", 0), St("EQU", 1), St("EQU", 2), St("SET", 1), St("SET", 2), St("SETC", 3), St("USE", 0),
    St("SECTION", 0), St("ENDSECTION", 0), St("ENDSECTION", 1), St("ENDSECTION", 2), St("PUBLIC", 0),
-   St("PUSHV", 0), St("POPV", 0), St("ENUM", 0), St("NEXTENUM", 0), St("IF", 0), St("ENDIF", 0), St("EMIT", 1),
-   St("IFDEF", 0), St("IFNDEF", 0)}
+   St("PUSHV", 0), St("POPV", 0), St("ENUM", 0), St("NEXTENUM", 0), St("IF", 0), St("ENDIF", 0), St("EMIT", 1)}
 
 \* EXPECT a: 1 -> 1200;  2 -> 1200,1450;  3 -> 1200,1200;  4 -> 2130,1200;  5 -> 1200,2130   (1200 = unknown instruction:
 \* BAD; 1450 = RESTORE without SAVE; 2130 = "expected error did not occur" itself: DrainIsSubjectToList)
 ExpAlpha ==
   {St("EXPECT", 1), St("EXPECT", 2), St("EXPECT", 3), St("ENDEXPECT", 0), St("BAD", 0), St("RESTORE", 0), St("UERR", 0),
-   St("IF", 0), St("ENDIF", 0), St("EMIT", 1), St("END", 0)}
+   St("IF", 0), St("ENDIF", 0), St("EMIT", 1), St("END", 0), St("IFDEF", 0), St("IFNDEF", 0), St("EQU", 1)}
 ExpNums(a) == CASE a = 1 -> <<1200>> [] a = 2 -> <<1200, 1450>> [] a = 3 -> <<1200, 1200>> [] a = 4 -> <<2130, 1200>>
                 [] OTHER -> <<1200, 2130>>
 
